@@ -110,10 +110,23 @@ def prop(case, rec):
 def cases(draw):
     ngram = draw(st.sampled_from([2, 2, 3, 3, 4]))
     letters = draw(st.sampled_from(['ab', 'abc', 'abc1', 'ab1!']))
-    style = draw(st.sampled_from(['eq_ngram', 'single_length', 'mixed', 'mixed']))
+    style = draw(st.sampled_from(['eq_ngram', 'single_length', 'mixed', 'mixed', 'hub', 'hub']))
     n = draw(st.integers(4, 30))
     entries, seen = [], set()
     fixed_len = draw(st.integers(ngram, ngram + 2))
+    if style == 'hub':
+        # a context with many roughly equally likely successors (none of them gets transition level 0)
+        hub = ''.join(draw(st.lists(st.sampled_from('qa'), min_size=ngram - 1, max_size=ngram - 1)))
+        followers = draw(st.lists(st.sampled_from('bcdefghijklm'), min_size=6, max_size=10, unique=True))
+        tail = draw(st.sampled_from(['', 'z', 'z1', '1']))
+        lead = draw(st.sampled_from(['', 'q', 'x']))
+        for f in followers:
+            p = lead + hub + f + tail
+            if p not in seen and len(p) >= 1:
+                seen.add(p)
+                entries.append([p, draw(st.sampled_from([1, 1, 2]))])
+        letters = 'qaxz1'
+        n = draw(st.integers(0, 6))
     for _ in range(n):
         if style == 'eq_ngram' and draw(st.integers(0, 3)) > 0:
             ln = ngram
@@ -130,7 +143,7 @@ def cases(draw):
 
 
 def run_main(rec, seed, shard, nshards, tier):
-    n = {'quick': 25, 'thorough': 600}[tier]
+    n = {'quick': 40, 'thorough': 600}[tier]
     cap = {'quick': 1500, 'thorough': 50000}[tier]
     ml = {'quick': 11, 'thorough': 18}[tier]
     core.hyp_run(rec, prop, cases().map(lambda c: dict(c, cap=cap, max_level=ml)), n, seed)
